@@ -578,6 +578,8 @@ func suiteAppRelay(e *vh.Env) {
 	for _, a := range names {
 		exchange(10, 1000001, false, []faultRule{rules[a]}, a)
 	}
+	// a blob with several parts whose writes all fail at once (every part is written by its own goroutine)
+	exchange(10, 3300000, false, []faultRule{rules["put-part"]}, "put-part-x3")
 	for i, a := range names {
 		for _, bn := range names[i+1:] {
 			exchange(10, 500, false, []faultRule{rules[a], rules[bn]}, a+"+"+bn)
